@@ -10,6 +10,7 @@
        wsel <rank> <s e st>*rank <hex>       cgio_write_data, memory side contiguous (1-D, 1..N, stride 1)
        rall | rblk <b_start> <b_end> | rsel <rank> <s e st>*rank      the three readers (cgio_read_*_data_type)
        reopen                                cgio_close_file + cgio_open_file(modify); the node id is looked up again
+       arm | disarm                          open / close a window for harness/interpose.c (fault injection leg of the check)
    output, per operation:
        OP <the line>
        ST <cgio status>                      0 or the ADF error code
@@ -31,14 +32,15 @@
 #include "ADF_internals.h"
 #include "cgns_io.h"
 
-static int cg = -1, rawfd = -1, npad = 0;
+static int cg = -1, rawfd = -1, npad = 0, armed = 0;
 static double root_id, nid;
 static char path[2048];
 static long long naddr = -1;
 
 static unsigned long long lev(const unsigned char *p, int n) { unsigned long long v = 0; int i; for (i = n - 1; i >= 0; i--) v = v * 256 + p[i]; return v; }
 static unsigned long long hexv(const unsigned char *p, int n) { unsigned long long v = 0; int i; for (i = 0; i < n; i++) { int c = p[i]; v = v * 16 + (c >= '0' && c <= '9' ? c - '0' : c >= 'A' && c <= 'F' ? c - 'A' + 10 : c >= 'a' && c <= 'f' ? c - 'a' + 10 : 0); } return v; }
-static long long ptr_at(const unsigned char *p) { return (long long)lev(p, 8) * 4096 + (long long)lev(p + 8, 4); }
+/* address of a disk pointer; -1 for a block number no file can have (garbage after a failed call) */
+static long long ptr_at(const unsigned char *p) { unsigned long long b = lev(p, 8); return b >> 40 ? -1 : (long long)(b * 4096ULL + lev(p + 8, 4)); }
 
 static void raw(long long a, long long n)
 {
@@ -67,7 +69,7 @@ static void dump_chunk(long long s, long long e_tab)
 static void dump(void)
 {
     unsigned char h[246]; long long nch, dc;
-    if (rawfd < 0 || naddr < 0) return;
+    if (rawfd < 0 || naddr < 0 || armed) return;       /* no reads of our own inside a fault-injection window */
     if (pread(rawfd, h, 246, naddr) != 246) { raw(naddr, 246); return; }
     raw(naddr, 246);
     nch = (long long)hexv(h + 226, 4);
@@ -208,6 +210,11 @@ int main(void)
             rawfd = open(path, O_RDONLY); locate();
             if (!st && before != naddr) st = -7;
             printf("ST %d\n", st); dump();
+        } else if (!strcmp(tok[0], "arm")) {
+            /* harness/interpose.c (LD_PRELOAD) counts / fails the system calls made between arm and disarm */
+            armed = 1; access("//VERIF_IP_ARM", 0); printf("ST 0\n");
+        } else if (!strcmp(tok[0], "disarm")) {
+            access("//VERIF_IP_DISARM", 0); armed = 0; printf("ST 0\n");
         } else if (!strcmp(tok[0], "close")) {
             st = cgio_close_file(cg); cg = -1;
             printf("ST %d\n", st);
